@@ -462,7 +462,19 @@ impl<K: Spec + Ord, V: Spec> Spec for BTreeMap<K, V> {
     }
     fn dec(d: &mut D, c: bool, v: bool) -> R<Self> {
         // later duplicates overwrite earlier ones
-        Ok(dec_seq::<(K, V)>(d, c, v, "btreemap")?.map(|o| o.into_iter().collect()))
+        let Some(entries) = dec_seq::<(K, V)>(d, c, false, "btreemap")? else { return Ok(None) };
+        let all_ok = entries.iter().all(|x| x.ok());
+        let map: BTreeMap<K, V> = entries.into_iter().collect();
+        if !v || all_ok {
+            return Ok(Some(map));
+        }
+        if !map.ok() {
+            return d.bad("invalid");
+        }
+        // an invalid entry that is shadowed by a later entry with the same key (no serializer writes this): a reader
+        // that validates entry by entry refuses the input, a reader that validates the collected map accepts it; the
+        // value it returns is valid either way - both outcomes are admissible, the model does not decide
+        Ok(None)
     }
 }
 impl Spec for String {
